@@ -219,6 +219,25 @@ func init() {
 func ownCheck(mode string, t reflect.Type, v reflect.Value, doc []byte) string {
 	in := append(make([]byte, 0, len(doc)+8), doc...)
 	switch {
+	case mode == "marshalbig":
+		// outputs of every size class up to a few hundred KiB (any size-dependent shortcut around the copy-out of the pooled
+		// buffer would hand out pooled memory): each result must survive later calls that reuse the pool
+		for _, n := range []int{1, 4000, 4096, 4097, 32768, 65535, 65536, 65537, 100000, 262144, 300000} {
+			val := map[string]any{"k": strings.Repeat("a", n), "n": n}
+			out, err := json.Marshal(val)
+			if err != nil {
+				return "marshal-error"
+			}
+			snap := append([]byte{}, out...)
+			json.Marshal(map[string]any{"k": strings.Repeat("b", n+100), "n": -1})
+			var sb bytes.Buffer
+			json.NewEncoder(&sb).Encode([]int{1, 2, 3})
+			churn(uint64(n))
+			if !bytes.Equal(out, snap) {
+				return fmt.Sprintf("result-of-%d-bytes-changed-by-later-calls", len(snap))
+			}
+		}
+		return "ok"
 	case mode == "marshal" || mode == "append" || mode == "encoder":
 		var out []byte
 		var err error
@@ -368,5 +387,8 @@ func runC10(h *H) {
 	}
 	for i := 0; i < N; i++ {
 		h.DoRisky("json.own", strconv.FormatUint(h.U64(), 10), ownModes[h.Intn(len(ownModes))])
+	}
+	for i := 0; i < 3; i++ {
+		h.DoRisky("json.own", strconv.Itoa(i), "marshalbig")
 	}
 }
